@@ -301,7 +301,7 @@ def gen_netlist(rng, mode="full", max_stmts=10, max_inputs=5, depth=4, lookalike
         stmts.append({"k": "prim", "gate": "buf", "insts": [[fresh_inst(), w, [["id", inputs[0]]]]]})
         driven = [w]
     outputs = rng.sample(driven, min(len(driven), rng.randint(1, 3)))
-    nl = {"name": rng.choice(["top", "m1", "Top_2"]), "inputs": inputs, "outputs": outputs, "wires": [w for w in wires if w not in outputs], "stmts": stmts, "bbdefs": bbdefs, "free_bb": free_bb, "mode": mode}
+    nl = {"name": rng.choice(["top", "m1", "Top_2", "top", "m1", "Top_2", "top$1", "m$x"]), "inputs": inputs, "outputs": outputs, "wires": [w for w in wires if w not in outputs], "stmts": stmts, "bbdefs": bbdefs, "free_bb": free_bb, "mode": mode}
     renames = {}
     if lookalike and rng.random() < lookalike and not fast:
         renames = lookalike_renames(rng, nl)
